@@ -1628,6 +1628,30 @@ Proof.
   split; [exact A3|congruence].
 Qed.
 
+(* ... and it leaves no outstanding record, so the cycle can be repeated *)
+Theorem sync_cycle_records n n1 rd st' n3 lr :
+  rn_ready n = Ok (n1, rd) -> rn_records n = [] ->
+  rn_advance_append (set_store_node n1 st') rd = Ok (n3, lr) -> rn_records n3 = [].
+Proof.
+  intros H Er Ha.
+  destruct (ready_entries_are_unstable _ _ _ H)
+    as (_ & _ & _ & Emax & _ & _ & _ & _ & _ & (recs & Hrecs & _ & Erec) & _).
+  assert (Hr0 : recs = []).
+  { unfold ready_records in Hrecs. destruct (_ && _); [apply Hrecs|rewrite Er in Hrecs; exact Hrecs]. }
+  destruct (rn_advance_append_inv _ _ _ _ Ha) as (m1 & m2 & m3 & lr3 & H1 & H2 & H3 & _ & _ & _ & _ & Hn' & _).
+  destruct (commit_ready_stabilises _ _ _ H1) as (_ & _ & _ & E1).
+  destruct (on_persist_ready_spec _ _ _ H2) as (i & t & si & r1 & _ & E2 & _).
+  destruct (gen_light_ready_spec _ _ _ H3) as (oe & k & _ & _ & E3 & _).
+  assert (A3 : rn_records n3 = rn_records m3) by (subst n3; reflexivity).
+  assert (A2 : rn_records m3 = rn_records m2) by (rewrite E3; reflexivity).
+  destruct (commit_prev_frame (set_store_node n1 st') rd) as (_ & F2 & F3 & _).
+  assert (A1 : rn_records m1 = rn_records n1 /\ rn_max_number m1 = rn_max_number n1).
+  { rewrite E1. split; [exact F2|exact F3]. }
+  destruct A1 as [A1 A1'].
+  rewrite A3, A2, E2, A1, A1', Erec, Emax, Hr0. cbn [app drop_le rr_number].
+  rewrite N.ltb_irrefl. reflexivity.
+Qed.
+
 (* ================================================================== *)
 (* Part E. Traces over C07's op alphabet                                *)
 (* ================================================================== *)
